@@ -331,9 +331,9 @@ fn unitop_oracle(c: &UnitOp) -> Verdict {
 
 pub fn subs() -> Vec<Box<dyn DynSub>> {
     vec![
-        sub(Sub { name: "c01.addsub", source: Source::Gen(addsub_strategy, 1_600_000, 60_000_000), oracle: addsub_oracle, known: no_known, hang_is_violation: false }),
-        sub(Sub { name: "c01.negabs", source: Source::Gen(negabs_strategy, 400_000, 10_000_000), oracle: negabs_oracle, known: no_known, hang_is_violation: false }),
-        sub(Sub { name: "c01.muldiv", source: Source::Gen(muldiv_strategy, 1_200_000, 40_000_000), oracle: muldiv_oracle, known: muldiv_known, hang_is_violation: false }),
-        sub(Sub { name: "c01.unitop", source: Source::Gen(unitop_strategy, 800_000, 20_000_000), oracle: unitop_oracle, known: no_known, hang_is_violation: false }),
+        sub(Sub { name: "c01.addsub", source: Source::Gen(addsub_strategy, 6_400_000, 60_000_000), oracle: addsub_oracle, known: no_known, hang_is_violation: false }),
+        sub(Sub { name: "c01.negabs", source: Source::Gen(negabs_strategy, 1_600_000, 10_000_000), oracle: negabs_oracle, known: no_known, hang_is_violation: false }),
+        sub(Sub { name: "c01.muldiv", source: Source::Gen(muldiv_strategy, 4_800_000, 40_000_000), oracle: muldiv_oracle, known: muldiv_known, hang_is_violation: false }),
+        sub(Sub { name: "c01.unitop", source: Source::Gen(unitop_strategy, 3_200_000, 20_000_000), oracle: unitop_oracle, known: no_known, hang_is_violation: false }),
     ]
 }
